@@ -1593,6 +1593,38 @@ func (i valueImporter) importCompositeValue(
 		}
 	}
 
+	// An enum value is hashed by its type ID and its raw value
+	// (e.g. when it is inserted as a key into an imported dictionary,
+	// which happens before the imported value is checked for conformance).
+	// Ensure that a value of an enum type is an enum with a raw value of the declared raw type.
+
+	if kind == common.CompositeKindEnum || compositeType.Kind == common.CompositeKindEnum {
+		if kind != compositeType.Kind {
+			return nil, errors.NewDefaultUserError(
+				"cannot import value of type %s: expected %s, got %s",
+				qualifiedIdentifier,
+				compositeType.Kind.Name(),
+				kind.Name(),
+			)
+		}
+
+		var rawValue interpreter.Value
+		for _, field := range fields {
+			if field.Name == sema.EnumRawValueFieldName {
+				rawValue = field.Value
+			}
+		}
+
+		if rawValue == nil ||
+			!interpreter.IsSubTypeOfSemaType(inter, rawValue.StaticType(inter), compositeType.EnumRawType) {
+
+			return nil, errors.NewDefaultUserError(
+				"cannot import value of type %s: missing or invalid raw value",
+				qualifiedIdentifier,
+			)
+		}
+	}
+
 	return interpreter.NewCompositeValue(
 		inter,
 		location,
